@@ -94,3 +94,27 @@ R("C18", "fstring-name", UT, 'return cls.__module__ + "." + cls.__name__', 'retu
 R("C18", "type-self", JS, "get_full_class_name(self.__class__)", "get_full_class_name(type(self))")
 R("C18", "rename-constants", JS, "leaf_types", "scalar_types", count=99)
 R("C18", "rpartition", JS, "            module_name, class_name = fully_qualified_class_name.rsplit(\".\", 1)\n", "            module_name, _, class_name = fully_qualified_class_name.rpartition(\".\")\n")
+
+# ------------------------------------------------------------------------------------- C16
+PDF = "krrood/ontomatic/property_descriptor/property_descriptor.py"
+MCF = "krrood/ontomatic/property_descriptor/monitored_container.py"
+M("C16", "clear-before-read", PDF, "            new_values = make_list(value)\n            attr._clear()\n            for v in new_values:", "            attr._clear()\n            for v in make_list(value):", "PD-ALIAS")
+M("C16", "set-conversion-setter", PDF, "            new_values = make_list(value)\n", "            new_values = make_set(value)\n", "PD-SEQ")
+M("C16", "set-conversion-ensure", PDF, "            for v in make_list(value):\n                monitored_value._add_item", "            for v in set(value):\n                monitored_value._add_item", "PD-SEQ")
+M("C16", "insert-no-hook", MCF, "    def insert(self, idx, item):\n        item = self._on_add(item)\n        super().insert(idx, item)\n", "    def insert(self, idx, item):\n        super().insert(idx, item)\n", "MonitoredList.insert#hook")
+M("C16", "insert-removed", MCF, "    def insert(self, idx, item):\n        item = self._on_add(item)\n        super().insert(idx, item)\n", "", "MonitoredList.insert#override")
+M("C16", "setitem-removed", MCF, "    def __setitem__(self, idx, value):\n        value = self._on_add(value)\n        super().__setitem__(idx, value)\n", "", "MonitoredList.__setitem__#override")
+M("C16", "extend-bulk-raw", MCF, "    def extend(self, items):\n        for item in items:\n            self._add_item(item)\n", "    def extend(self, items):\n        super().extend(items)\n", "MonitoredList.extend")
+M("C16", "update-first-only", MCF, "    def update(self, values):\n        for value in values:\n            self._add_item(value)\n", "    def update(self, values):\n        values = list(values)\n        if values:\n            self._add_item(values[0])\n        super().update(values[1:])\n", "MonitoredSet.update#each")
+M("C16", "add-no-graph", MCF, "    def add(self, value):\n        self._add_item(value)\n", "    def add(self, value):\n        self._add_item(value, add_relation_to_the_graph=False)\n", "MonitoredSet.add#not-suppressed")
+M("C16", "append-hook-no-store", MCF, "        item = self._on_add(\n            item, inferred=inferred, add_relation_to_the_graph=add_relation_to_the_graph\n        )\n        super().append(item)\n", "        item = self._on_add(\n            item, inferred=inferred, add_relation_to_the_graph=add_relation_to_the_graph\n        )\n", "#store")
+M("C16", "default-graph-off", MCF, "    def _add_item(\n        self, value, inferred: bool = False, add_relation_to_the_graph: bool = True\n    ):", "    def _add_item(\n        self, value, inferred: bool = False, add_relation_to_the_graph: bool = False\n    ):", "default-records")
+M("C16", "hook-needs-nonempty", MCF, "        if owner is not None and add_relation_to_the_graph:", "        if owner is not None and add_relation_to_the_graph and len(self) > 0:", "MC-HOOK", allow_error=True)
+M("C16", "hook-records-inferred", MCF, "self._descriptor.add_relation_to_the_graph(owner, value, inferred=inferred)", "self._descriptor.add_relation_to_the_graph(owner, value, inferred=True)", "MC-HOOK")
+M("C16", "single-no-record", PDF, "            setattr(obj, self.private_attr_name, value)\n            self.add_relation_to_the_graph(obj, value)\n", "            setattr(obj, self.private_attr_name, value)\n", "PD-SINGLE")
+M("C16", "setter-repopulate-silent", PDF, "                attr._add_item(v, inferred=False)\n        else:", "                attr._add_item(v, inferred=False, add_relation_to_the_graph=False)\n        else:", "PD-AUG")
+R("C16", "identity-guard-instead-of-snapshot", PDF, "            new_values = make_list(value)\n            attr._clear()\n            for v in new_values:\n                attr._add_item(v, inferred=False)\n",
+  "            if value is not attr:\n                attr._clear()\n                for v in make_list(value):\n                    attr._add_item(v, inferred=False)\n")
+R("C16", "explicit-iadd", MCF, "    def append(self, item):\n        self._add_item(item)\n", "    def append(self, item):\n        self._add_item(item)\n\n    def __iadd__(self, items):\n        self.extend(items)\n        return self\n")
+R("C16", "rename-loop-var", MCF, "        for item in items:\n            self._add_item(item)\n", "        for element in items:\n            self._add_item(element)\n")
+R("C16", "tuple-snapshot", PDF, "            new_values = make_list(value)\n", "            new_values = tuple(make_list(value))\n")
